@@ -15,7 +15,7 @@ CLAIMED = {
  "C03": E("differential monitor: DiffTool verdict vs a deterministic one-line-look-ahead run oracle, cross-checked against the DP oracle",
           "Exploration: only cases the determinism oracle puts in scope are judged; member <=> pass; includes the output's own lines as expectations.",
           "Conservative scope test (any line matched by two candidates => out of scope); match matrix as data."),
- "C04": E("differential monitor: Expectation::matches for every rule kind vs the harness's own matchers (byte equality, escape decoder, glob DP, backtracking full-match regex evaluator over a generated AST), default and Cram-compat registries",
+ "C04": E("differential monitor: Expectation::matches for every rule kind vs the harness's own matchers (byte equality, escape decoder, glob DP, backtracking full-match regex evaluator over a generated AST), default and Cram-compat registries; end-to-end part: the same pairs rendered into a .md and a .t document, one `scrut test -r json` invocation in both orders, every verdict against the oracle of its own dialect",
           "Exploration: expressions rendered from token lists / ASTs so the documented meaning is known by construction; candidate lines = members, one-edit mutants, anchoring extensions, non-ASCII.",
           "Expression size <= 12 nodes, lines <= 40 scalars, valid UTF-8 for glob/regex; constructs scrut changes for Cram compatibility are not specified cases."),
  "C05": E("input + model: TestCase::validate vs (exit-code gate and DP membership on the configured stream); end-to-end: documents whose commands exit N / print payloads / kill their shell, result kinds of `scrut test -r json` vs a sequential model, marker log",
@@ -44,7 +44,7 @@ CLAIMED = {
           "bash 5.2.15 of this image; TESTDIR-class variables never modified (C12 and C18 contradict there, observation O-1)."),
  "C13": E("construction oracle: commands cat payload files / print literals, expected bytes computed by the harness (CR LF and CSI transforms its own), both executors, all stream/keep_crlf/strip_ansi settings; direct replace_crlf up to 1e6 pairs; memcheck sidecar (thorough)",
           "Exploration: 220 sequences (quick) / 16000 (thorough), payloads up to 8 MB on both streams.",
-          "TAB/CR removal by strip-ansi-escapes not asserted; forged divider output is a listed finding."),
+          "strip_ansi_escaping judged by the harness's own ECMA-48 remover (every other byte must survive); forged divider output and the EXIT trap text under `set -v` are listed findings."),
  "C14": E("(A) invariant at a hook: timeout_decision events checked purely logically (chosen = min, is_global, remaining non-increasing); (B) real-time matrix at the process boundary with an 8x gap (1 s vs 8 s), marker files prove the command was aborted",
           "Exploration: 200 decision runs + 24 matrix rows (quick).",
           "Wall clock only separates 1 s from 8 s; Cram attribution of a document timeout not judged per test."),
@@ -56,7 +56,7 @@ CLAIMED = {
           "Environment judged on the first test of a document only (later tests inherit exported state, C12)."),
  "C17": E("round-trip law: to_yaml_one_liner -> fence line -> MarkdownParser; serde_yaml block form; front-matter; equality of configurations",
           "Exploration: 5e4 / 3e6 configurations, hostile values.",
-          "U+2028/2029/0085/DEL/C1 in environment values not probed."),
+          "Values include U+0085/2028/2029/FEFF, DEL, C1 controls and non-characters; the generated document is read under both format bases."),
  "C18": E("end-to-end boundary observation: private TMPDIR tree before/after/2 s after each scrut process for 18 outcome classes x default/keep/work-directory, env and pwd probes from the JSON of failing tests, bursts of 8 concurrent processes; memcheck sidecar (thorough)",
           "Exploration: 216 runs (quick) / 1440 (thorough).",
           "Schedules between processes sampled by bursts; tests never modify the documented variables (O-1)."),
